@@ -212,6 +212,12 @@ def families(rec, base, name, other, exhaustive, stride_seed=0):
     judge(rec, base, name, 'append-literal', 0, base['blob'] + evil)
     judge(rec, base, name, 'prepend-literal', 0, evil + base['blob'])
     judge(rec, base, name, 'insert-literal', 0, b''.join(p.raw for p in pkts[:ci]) + evil + cont.raw)
+    # the container removed, or replaced by cleartext packets, behind the untouched session-key packets
+    esks = b''.join(p.raw for p in pkts[:ci])
+    judge(rec, base, name, 'container-dropped', 0, esks)
+    judge(rec, base, name, 'container-replaced-by-literal', 0, esks + evil)
+    judge(rec, base, name, 'container-replaced-by-literal', 1, evil + esks)
+    judge(rec, base, name, 'container-replaced-by-compressed', 0, esks + wire.build_packet(8, b'\x00' + evil))
     judge(rec, base, name, 'append-compressed', 0, base['blob'] + wire.build_packet(8, b'\x00' + evil))
     judge(rec, base, name, 'append-marker', 0, base['blob'] + wire.build_packet(10, b'PGP'))
     # forgeries made with knowledge of the session key
